@@ -12,6 +12,10 @@ package main
 //   localized-long-category  translations of category names / set_run_result categories beyond every definition-time
 //            limit, saved into category_localized by the live engine and validated only when the run is read back
 //            (mutation trial M22)
+//   matrix:*  one scenario per trigger type that references assets (user, call channel, msg channel, parent run
+//            summary, channel event, ticket with topic and assignee, opt-in, campaign) with a contact that has groups,
+//            fields, a channel-bound URN and a ticket; every asset kind is deleted in turn before the first resume and
+//            the session read over the reduced assets must itself be persistable
 //   exited-child-flow  templates reading the flow of an exited child / exited parent after a restart; msg trigger with
 //            a keyword match built through the builder API (mutation trials M13, M14 in checks/C02.mutations.md)
 
@@ -174,6 +178,48 @@ func corpusScenarios() []*Scenario {
 				"keyword_match": map[string]any{"type": "first_word", "keyword": "a"}},
 			[]json.RawMessage{msg(0, "a"), msg(1, "b"), msg(2, "c")}},
 	}
+	// matrix: every trigger type that references assets x every asset kind deleted before the first resume (hunt finding
+	// C10/adjacent: an optin trigger re-read without its opt-in asset marshalled "optin": null, which ReadSession rejects)
+	richContact := map[string]any{}
+	for k, v := range contact {
+		richContact[k] = v
+	}
+	richContact["fields"] = map[string]any{"gender": map[string]any{"text": "Male"}, "age": map[string]any{"text": "23", "number": 23}}
+	richContact["groups"] = []any{map[string]any{"uuid": grpTesters, "name": "Testers"}, map[string]any{"uuid": grpCust, "name": "Customers"}}
+	richContact["ticket"] = map[string]any{"uuid": "78d1fe0d-7e39-461e-81c3-a6a25f15ed69", "topic": map[string]any{"uuid": topicWx, "name": "Weather"},
+		"assignee": map[string]any{"email": "bob@nyaruka.com", "name": "Bob McTickets"}}
+	base := func(typ string) map[string]any {
+		return map[string]any{"type": typ, "flow": flowRefJSON(1), "contact": richContact, "triggered_on": "2019-12-31T11:40:30.123456789-00:00"}
+	}
+	with := func(t map[string]any, kv ...any) map[string]any {
+		for i := 0; i+1 < len(kv); i += 2 {
+			t[kv[i].(string)] = kv[i+1]
+		}
+		return t
+	}
+	chRef := map[string]any{"uuid": chanUUID, "name": "Android"}
+	matrixFlows := []any{flowDef(1, waitNode(101, 102),
+		actionNode(102, 103, map[string]any{"type": "enter_flow", "flow": flowRefJSON(2)}, map[string]any{"type": "send_msg", "text": probeText}), waitNode(103, 104),
+		actionNode(104, 0, map[string]any{"type": "send_msg", "text": probeText})),
+		flowDef(2, actionNode(201, 0, map[string]any{"type": "set_run_result", "name": "r0", "value": "child"}))}
+	for _, mt := range []struct {
+		name string
+		trig map[string]any
+	}{
+		{"manual-user", with(base("manual"), "user", map[string]any{"email": "bob@nyaruka.com", "name": "Bob McTickets"}, "origin", "ui",
+			"call", map[string]any{"channel": chRef, "urn": "tel:+12024561111"})},
+		{"msg", with(base("msg"), "msg", map[string]any{"uuid": "9bf91c2b-ce58-4cef-aacc-000000000000", "text": "a", "urn": "tel:+12024561111", "channel": chRef})},
+		{"flow-action", with(base("flow_action"), "run_summary", json.RawMessage(richParentSummary),
+			"history", map[string]any{"parent_uuid": "8a1a6a3c-2b1c-4f5d-9a3e-1c2d3e4f5a6b", "ancestors": 1, "ancestors_since_input": 1})},
+		{"channel", with(base("channel"), "event", map[string]any{"type": "new_conversation", "channel": chRef})},
+		{"ticket", with(base("ticket"), "event", map[string]any{"type": "closed", "ticket": map[string]any{"uuid": "58e9b092-fe42-4173-876c-ff45a14a24fe",
+			"topic": map[string]any{"uuid": topicWx, "name": "Weather"}, "assignee": map[string]any{"email": "bob@nyaruka.com", "name": "Bob McTickets"}}})},
+		{"optin", with(base("optin"), "event", map[string]any{"type": "started", "optin": map[string]any{"uuid": optinUUID, "name": "Joke Of The Day"}})},
+		{"campaign", with(base("campaign"), "event", map[string]any{"uuid": "34d16dbd-476d-4b77-bac3-9f3d597848cc",
+			"campaign": map[string]any{"uuid": "58e9b092-fe42-4173-876c-ff45a14a24fe", "name": "New Mothers"}})},
+	} {
+		items = append(items, item{"matrix:" + mt.name, matrixFlows, mt.trig, []json.RawMessage{msg(0, "a"), msg(1, "b")}})
+	}
 	var out []*Scenario
 	for idx, it := range items {
 		it := it
@@ -189,7 +235,8 @@ func corpusScenarios() []*Scenario {
 				}
 				return engine.NewSessionAssets(envs.NewBuilder().Build(), src, nil)
 			},
-			NewEngine: func() flows.Engine { return serviceEngine(engine.NewBuilder()) },
+			LoadWithout: func(kind string) (flows.SessionAssets, error) { return assetsWithout(assetsJSON, kind) },
+			NewEngine:   func() flows.Engine { return serviceEngine(engine.NewBuilder()) },
 			MakeTrigger: func(sa flows.SessionAssets) (flows.Trigger, error) {
 				if t, err := buildTrigger(sa, it.trigger); t != nil || err != nil {
 					return t, err
@@ -201,6 +248,7 @@ func corpusScenarios() []*Scenario {
 				return resumes.ReadResume(sa, it.resumes[i], assets.IgnoreMissing)
 			},
 			Requestor: urlRequestor{},
+			DropKind:  map[bool]string{true: "*", false: ""}[strings.HasPrefix(it.name, "matrix:")],
 			Batch:     it.trigger["batch"] == true,
 			Input:     map[string]any{"stream": "corpus", "name": it.name, "assets": json.RawMessage(assetsJSON), "trigger": json.RawMessage(trigJSON), "resumes": it.resumes},
 			Tags:      []string{"corpus"},
